@@ -55,9 +55,13 @@ def conc_shard(spec, res):
 
     def per_state(d, wit):
         sub = type('R', (), {})()
+        # (the 'restart:' scenarios start from a database in which one
+        # standard name is missing until the start-up in the schedule has
+        # run: completeness is judged at the end)
         check_state(d, None, res, std_traits, std_classes,
                     'concurrent [%s] %s' % (wit['transaction_order'],
-                                            wit['scenario']), wit)
+                                            wit['scenario']), wit,
+                    synced=not wit['scenario'].startswith('restart:'))
         # (referential integrity of associations is C08's business; the race
         # DELETE /traits/X vs PUT .../traits [X] leaves a dangling row only
         # because SQLite does not enforce the foreign key that MySQL and
@@ -66,6 +70,11 @@ def conc_shard(spec, res):
             res.count('fk_unenforced_dangling_trait_association_seen')
 
     def at_end(d0, final, reqs, results, wit):
+        if wit['scenario'].startswith('restart:') and all(
+                r is not None and r.status < 500 for r in results.values()):
+            check_state(final, None, res, std_traits, std_classes,
+                        'after the start-up in [%s] %s' % (
+                            wit['transaction_order'], wit['scenario']), wit)
         for n, r in results.items():
             if r is None or r.status >= 500:
                 res.violation(
